@@ -98,14 +98,33 @@ class NamedValues(dict):
     names_list = None
 
 
+SHARE_OBJECTIVES = [False]      # C15 chains: one objective object per spec for the whole process, as a caller re-using it would
+_OBJ_CACHE = {}
+
+
 def objective(spec):
     """'MinimizeDifference' | 'MinimizeLargestSum' | 'MaximizeSmallestSum' |
     'MaximizeKSmallestSums(2)' | 'MinimizeKLargestSums(2)' | 'MaximizeSmallestWeightedSum([1,2])'"""
     if "(" not in spec:
         return getattr(obj, spec)
+    if SHARE_OBJECTIVES[0] and spec in _OBJ_CACHE:
+        return _OBJ_CACHE[spec]
     name, arg = spec.split("(", 1)
     import json
-    return getattr(obj, name)(json.loads(arg[:-1]))
+    o = getattr(obj, name)(json.loads(arg[:-1]))
+    if SHARE_OBJECTIVES[0]:
+        _OBJ_CACHE[spec] = o
+    return o
+
+
+# one names list, one value table and one value function for the whole process (format names_shared): the caller keeps the
+# same objects and changes the data in place between calls
+SHARED_NAMES = []
+SHARED_VALUES = {}
+
+
+def shared_valueof(name):
+    return SHARED_VALUES[name]
 
 
 def names_for(values, kind):
@@ -125,6 +144,12 @@ def present(values, fmt):
         return values, None, None
     if fmt == "array":
         return np.array(values, dtype=np.int64) if all(isinstance(v, int) for v in values) else np.array(values), None, None
+    if fmt == "names_shared":
+        nm = ["s%02d" % i for i in range(len(values))]
+        SHARED_NAMES[:] = nm
+        SHARED_VALUES.clear(); SHARED_VALUES.update(zip(nm, values))
+        d = NamedValues(zip(nm, values)); d.names_list = list(nm)
+        return SHARED_NAMES, shared_valueof, d
     if fmt == "names_rep":
         # one name per distinct VALUE (anti-correlated), so equal values are the same name repeated in the list
         distinct = sorted(set(values), reverse=True)
